@@ -1,7 +1,7 @@
 (* Entry point of the extracted runner: [run fn arg].  The Python side finds function
    numbers by parsing the "(* FN name *)" comments below. *)
 From Coq Require Import ZArith List Bool.
-From PyCraft Require Import Base.Res Base.Sx Model.VarInt Model.Versions Model.Position Model.SignedHex Model.Sha1 Model.Tables Model.FieldTypes Model.Nbt Model.Prog Model.CustomPackets Spec.ProtocolTable Model.Frame Model.Aes Model.Cfb8 Model.Rsa Model.Dispatch Model.ExcChain Model.Reactors.
+From PyCraft Require Import Base.Res Base.Sx Model.VarInt Model.Versions Model.Position Model.SignedHex Model.Sha1 Model.Tables Model.FieldTypes Model.Nbt Model.Prog Model.CustomPackets Spec.ProtocolTable Model.Frame Model.Aes Model.Cfb8 Model.Rsa Model.Dispatch Model.ExcChain Model.Reactors Model.Negotiate.
 Import ListNotations.
 Open Scope Z_scope.
 
@@ -114,8 +114,8 @@ Definition beh_fn (s : sx) (p : packet) : beh :=
 Definition sx_listener (s : sx) : listener := {| l_id := sx_z (sx_nth s 0); l_filter := sx_zs (sx_nth s 1); l_beh := beh_fn (sx_nth s 2) |}.
 Definition sx_packet (s : sx) : packet := {| p_key := sx_z (sx_nth s 0); p_cls := sx_z (sx_nth s 1) |}.
 Definition of_event (e : event) : sx := match e with Call l k => L [I 0; I l; I k] | Reaction k => L [I 1; I k] | Written k => L [I 2; I k] end.
-Definition of_outcome (o : outcome) : sx := match o with ODone => L [I 0] | OIgnored => L [I 1] | ORaised e => L [I 2; I e] end.
-Definition of_dispatch (r : list event * outcome) : sx := L [L (map of_event (fst r)); of_outcome (snd r)].
+Definition of_outcome (o : Dispatch.outcome) : sx := match o with ODone => L [I 0] | OIgnored => L [I 1] | ORaised e => L [I 2; I e] end.
+Definition of_dispatch (r : list event * Dispatch.outcome) : sx := L [L (map of_event (fst r)); of_outcome (snd r)].
 Definition sx_hres (s : sx) : hres := match s with L [I 1; I e] => HRaise e | _ => HReturn end.
 Definition hres_fn (s : sx) (e : Z) : hres :=
   match find (fun x => Z.eqb (sx_z (sx_nth x 0)) e) (sx_list s) with Some x => sx_hres (sx_nth x 1) | None => HReturn end.
@@ -155,6 +155,16 @@ Definition hash_or_nil (sid sec key : list Z) : list Z := match verification_has
 Definition of_sess (s : sess) : sx :=
   L [of_bool (s_play s); of_opt I (s_comp s); of_opt of_zs (s_enc s); L (map of_outpkt (s_queue s)); L (map of_wev (s_wire s));
      L (map (fun j => L [of_zs (fst j); of_nat (snd j)]) (s_joins s)); of_bool (s_spawned s); of_opt of_ending (s_end s); of_nat (s_exits s)].
+
+(* ---- negotiation ---- *)
+Definition sx_vspec (s : sx) : vspec := match sx_z (sx_nth s 0) with 0 => VName (sx_z (sx_nth s 1)) | 1 => VNum (sx_z (sx_nth s 1)) | _ => VOther end.
+Definition sx_env (sup names idx : sx) : env :=
+  {| e_supported := sx_zs sup; e_names := sx_pairs names; e_index := fun p => match Negotiate.lookup (sx_pairs idx) p with Some i => i | None => -1 end |}.
+Definition sx_sbeh (s : sx) : sbeh :=
+  match sx_z (sx_nth s 0) with 0 => Closed | 1 => EmptyObject | 2 => NoVersion | 3 => NoProtocolKey | _ => Proto (sx_z (sx_nth s 1)) end.
+Definition of_tcp (c : tcp) : sx := L [I (t_pv c); I (t_next c); I (match t_follow c with FRequest => 0 | FLoginStart => 1 end)].
+Definition of_noutcome (o : Negotiate.outcome) : sx :=
+  match o with Login p => L [I 0; I p] | Mismatch p s => L [I 1; I p; of_bool s] | InvalidStatus => L [I 2] | NoVersions => L [I 3] end.
 
 Definition run (fn : Z) (a : sx) : sx :=
   match fn with
@@ -247,5 +257,13 @@ Definition run (fn : Z) (a : sx) : sx :=
       of_sess (run_session (fun _ m => m) (sx_zs (sx_nth a 0)) hash_or_nil (sx_bool (sx_nth a 1)) (sx_bool (sx_nth a 2)) (map sx_step (sx_list (sx_nth a 3))))
   | 81 => (* FN outdated_ver : (msg) *)
       of_opt of_zs (outdated_ver (sx_zs (sx_nth a 0)))
+  | 90 => (* FN negotiate : (supported names indices allowed_opt initial_opt behaviour) -> () on ValueError | (allowed default conns outcome) *)
+      let e := sx_env (sx_nth a 0) (sx_nth a 1) (sx_nth a 2) in
+      let al := match sx_list (sx_nth a 3) with [] => None | l :: _ => Some (map sx_vspec (sx_list l)) end in
+      let ini := match sx_list (sx_nth a 4) with [] => None | v :: _ => Some (sx_vspec v) end in
+      match construct e al ini with
+      | None => L []
+      | Some (alw, d) => let r := connect 2 e alw d (sx_sbeh (sx_nth a 5)) in L [of_zs alw; I d; L (map of_tcp (fst r)); of_noutcome (snd r)]
+      end
   | _ => L [I 99]
   end.
